@@ -89,6 +89,19 @@ def run(chk):
     known = {repr(t) for t in ts}
     sim = [t for t in sim if repr(t) not in known]
     ts += sim
+    # runs: blocks of 4-6 conditionals over {c, not c, d} with leaf bodies (several separate runs of same-condition
+    # conditionals in one block, with and without else parts)
+    import itertools
+    C_, NC, D_ = ["v", "c"], ["not", ["v", "c"]], ["v", "d"]
+    kinds = [lambda a, b: ["L", a], lambda a, b: ["I", C_, ["L", a]], lambda a, b: ["I", NC, ["L", a]], lambda a, b: ["I", D_, ["L", a]],
+             lambda a, b: ["E", C_, ["L", a], ["L", b]], lambda a, b: ["E", D_, ["L", a], ["L", b]]]
+    rng_ = __import__("random").Random(chk.seed)
+    for n in (4, 5, 6):
+        combos = list(itertools.product(range(len(kinds)), repeat=n))
+        if n >= 5:
+            combos = rng_.sample(combos, (1500 if n == 5 else 800) if chk.quick else min(len(combos), 20000))
+        for combo in combos:
+            ts.append(["B", [kinds[k](2 * i + 1, 2 * i + 2) for i, k in enumerate(combo)]])
     cases = []
     for k, t in enumerate(ts):
         c = apply_real(t, wrap=True)
